@@ -109,6 +109,45 @@ type ignoreCfg struct {
 	exclude *fieldpath.Set
 	filter  fieldpath.Filter
 	kind    string
+	// versions: the API versions the configuration is given for (nil: all of them). The configuration
+	// maps of the Updater are per version; a version without an entry has nothing ignored.
+	versions []fieldpath.APIVersion
+}
+
+func (ig ignoreCfg) partial() bool { return ig.versions != nil }
+
+func (ig ignoreCfg) appliesTo() []fieldpath.APIVersion {
+	if ig.versions != nil {
+		return ig.versions
+	}
+	return versionLabels
+}
+
+// at: the configuration in force for records and requests at version v
+func (ig ignoreCfg) at(v fieldpath.APIVersion) ignoreCfg {
+	for _, w := range ig.appliesTo() {
+		if w == v {
+			return ig
+		}
+	}
+	return ignoreCfg{enc: "n", kind: "none"}
+}
+
+// restrictVersions gives the configuration for a proper non-empty subset of the version labels only
+func (ig ignoreCfg) restrictVersions(r *gen.Rng) ignoreCfg {
+	if ig.kind == "none" {
+		return ig
+	}
+	sh := gen.Shuffle(r, versionLabels)
+	vs := append([]fieldpath.APIVersion(nil), sh[:1+r.Intn(len(sh)-1)]...)
+	sort.Slice(vs, func(i, j int) bool { return vs[i] < vs[j] })
+	enc := "@["
+	for _, v := range vs {
+		enc += vx.Str(string(v))
+	}
+	ig.enc = enc + "]" + ig.enc
+	ig.versions = vs
+	return ig
 }
 
 func encMatcherPart(m fieldpath.PathElementMatcher) string { return encMatcher(m) }
@@ -184,7 +223,7 @@ func (ig ignoreCfg) equivalentFilterUpdater(noop bool, conv sameVersionConverter
 	}
 	b := &merge.UpdaterBuilder{Converter: conv, ReturnInputOnNoop: noop}
 	b.IgnoreFilter = map[fieldpath.APIVersion]fieldpath.Filter{}
-	for _, v := range versionLabels {
+	for _, v := range ig.appliesTo() {
 		b.IgnoreFilter[v] = fieldpath.NewExcludeSetFilter(ig.exclude)
 	}
 	return b.BuildUpdater()
@@ -199,12 +238,12 @@ func (ig ignoreCfg) updaterWith(noop bool, conv sameVersionConverter) *merge.Upd
 	switch ig.kind {
 	case "exclude":
 		b.IgnoredFields = map[fieldpath.APIVersion]*fieldpath.Set{}
-		for _, v := range versionLabels {
+		for _, v := range ig.appliesTo() {
 			b.IgnoredFields[v] = ig.exclude
 		}
 	case "include":
 		b.IgnoreFilter = map[fieldpath.APIVersion]fieldpath.Filter{}
-		for _, v := range versionLabels {
+		for _, v := range ig.appliesTo() {
 			b.IgnoreFilter[v] = ig.filter
 		}
 	}
@@ -264,6 +303,10 @@ func domUpd(r *gen.Rng, n int, thorough bool, o *Out) {
 		rootRef := sgen.Ref{Named: rootName}
 		tr := c.typeRef(rootRef)
 		ig := genIgnore(cr, c, rootRef)
+		if pr := cr.Fork(7_777); pr.Chance(20) {
+			// the configuration given for some of the versions only (own stream: the other draws stay as they were)
+			ig = ig.restrictVersions(pr)
+		}
 		noop := cr.Chance(10)
 		conv := sameVersionConverter{missing: map[fieldpath.APIVersion]bool{}, failing: map[fieldpath.APIVersion]bool{}}
 		up := ig.updaterWith(noop, conv)
@@ -359,6 +402,9 @@ func domUpd(r *gen.Rng, n int, thorough bool, o *Out) {
 		o.Cases++
 		o.Tag(fmt.Sprintf("upd:steps=%d", steps))
 		o.Tag("upd:ignore=" + ig.kind)
+		if ig.partial() {
+			o.Tag("upd:ignore-for-some-versions-only")
+		}
 		if interesting {
 			o.Nontrivial(fmt.Sprintf("%d:%s", h, transcript))
 		}
@@ -940,10 +986,14 @@ func stepUpdate(o *Out, c *typCtx, up *merge.Updater, ig ignoreCfg, st *updState
 			return encManagedBytes(m2)
 		}, encManagedBytes(managers), false)
 		degradedNow = st.conv.degraded()
-		judgeUpdate(o, op, c, ig, st.live, tv, newObj, pre, managers, mgr, ver)
+		if !ig.partial() {
+			judgeUpdate(o, op, c, ig, st.live, tv, newObj, pre, managers, mgr, ver)
+		}
 		st.prevLive = st.live
 		st.live, st.managers = newObj, managers
-		judgeInvariantIg(o, op, c, tr, st, ig.kind, "", false)
+		if !ig.partial() {
+			judgeInvariantIg(o, op, c, tr, st, ig.kind, "", false)
+		}
 		judgeIgnored(o, op, ig, managers)
 		return "ok " + encManaged(managers)
 	})
@@ -986,7 +1036,9 @@ func stepApply(o *Out, c *typCtx, up *merge.Updater, ig ignoreCfg, st *updState,
 			forcedObj, forcedManagers, forcedErr = fObj, fManagers, fErr
 			unforcedObj, unforcedManagers, unforcedErr = newObj, managers, err
 		}
-		judgeConflicts(o, op, c, ig, st, tv, mgr, ver, forcedObj, forcedManagers, forcedErr, unforcedObj, unforcedManagers, unforcedErr, noop)
+		if !ig.partial() {
+			judgeConflicts(o, op, c, ig, st, tv, mgr, ver, forcedObj, forcedManagers, forcedErr, unforcedObj, unforcedManagers, unforcedErr, noop)
+		}
 		if err != nil {
 			if cs, ok := err.(merge.Conflicts); ok {
 				if newObj != nil || len(managers) != 0 {
@@ -1021,7 +1073,9 @@ func stepApply(o *Out, c *typCtx, up *merge.Updater, ig ignoreCfg, st *updState,
 		if result == nil {
 			result = st.live
 		}
-		judgeApply(o, op, c, ig, up, st, tv, result, newObj == nil, pre, managers, mgr, ver, plain, noop)
+		if !ig.partial() {
+			judgeApply(o, op, c, ig, up, st, tv, result, newObj == nil, pre, managers, mgr, ver, plain, noop)
+		}
 		objs := "_"
 		if newObj != nil {
 			objs = vx.Value(newObj.AsValue())
@@ -1029,7 +1083,9 @@ func stepApply(o *Out, c *typCtx, up *merge.Updater, ig ignoreCfg, st *updState,
 		st.prevLive = st.live
 		st.live, st.managers = result, managers
 		_, hadRecord := pre[mgr]
-		judgeInvariantIg(o, op, c, tr, st, ig.kind, mgr, hadRecord)
+		if !ig.partial() {
+			judgeInvariantIg(o, op, c, tr, st, ig.kind, mgr, hadRecord)
+		}
 		judgeIgnored(o, op, ig, managers)
 		return "ok obj=" + objs + " " + encManaged(managers)
 	})
@@ -1630,7 +1686,7 @@ func judgeIgnored(o *Out, op string, ig ignoreCfg, managers fieldpath.ManagedFie
 		return
 	}
 	for m, vs := range managers {
-		if !applyFilter(ig, vs.Set()).Equals(vs.Set()) {
+		if !applyFilter(ig.at(vs.APIVersion()), vs.Set()).Equals(vs.Set()) {
 			o.Fail("C19", "never-owns-ignored", m, "never-owns-ignored "+op, op)
 		}
 	}
